@@ -29,7 +29,8 @@ ASSUMPTIONS = [
 ]
 
 LABELS = ["a", 0, 1]
-VALUES = [-2, -1, 0, 1, 2, 0.5, -1.5, 3]
+# incl. values that differ only in the 12th significant digit (an order that uses a tolerance would confuse them)
+VALUES = [-2, -1, 0, 1, 2, 0.5, -1.5, 3, 1 + 2.0 ** -40, 10 ** 12, 10 ** 12 + 1, -2 - 2.0 ** -39]
 
 
 def _item():
